@@ -6,15 +6,19 @@ LOGGER = get_logger()
 
 
 class SheetParser:
-    def __init__(self, row_parser, table, context={}):
+    def __init__(self, row_parser, table, context={}, include_column=None):
         """
         Args:
             row_parser: parser to convert flat dicts to RowModel instances.
             context: context used for template parsing
             table: Tablib Dataset representing the table to be parsed.
+            include_column: header of a column holding an inclusion condition;
+                if it evaluates to false, the other cells of the row are not
+                evaluated.
         """
 
         self.row_parser = row_parser
+        self.include_column = include_column
         self.bookmarks = {}
         self.input_rows = []
         for row_idx, row in enumerate(table):
@@ -45,6 +49,15 @@ class SheetParser:
             return (None, None) if return_index else None
         context = self.context if not omit_templating else None
         with logging_context(f"row {row_idx}"):
+            if context is not None and self.include_column in input_row:
+                # Evaluate the inclusion condition first: the remaining cells of an
+                # excluded row must not be evaluated.
+                included = self.row_parser.cell_parser.parse_as_string(
+                    input_row[self.include_column], context
+                )
+                if str(included).strip().lower() == "false":
+                    input_row = {**input_row, self.include_column: "false"}
+                    context = None
             row = self.row_parser.parse_row(input_row, context)
         return (row, row_idx) if return_index else row
 
